@@ -23,6 +23,7 @@ P_O   == Obj("Opaque", FALSE, M3(R(1),R(1),R(0), R(0),R(2),R(1)))
 PoolFull == <<P_H, P_A, P_S, P_R, P_T, P_U, P_N, P_AA, P_AS, P_AR, P_AT, P_AU, P_O>>
 PoolSmall == <<P_H, P_A, P_R, P_T, P_U, P_N, P_AS, P_AR, P_O>>
 PoolTiny == <<P_A, P_R, P_AS, P_N, P_O>>
+OnlyPinv == {"pinv"}
 AllOps == {"before","after","before_inplace","after_inplace","pinv"}
 PureOps == {"before","after","pinv"}
 =============================================================================
